@@ -155,22 +155,23 @@ PROPS = {
     "C01": dict(
         level="other",
         technique="Kani contract harnesses (assert form) per selector and time-span unit, full symbolic node x date domains",
-        level_text="Partial. The clause 'a rule applies on a day iff the day satisfies its year, month, week-number and weekday/holiday selectors (steps, nth positions, offsets, wrapping ranges, leap days, Easter)' is decided per selector type: for every AST node satisfying the grammar's invariants and every date 1900..9999 the real `filter` equals an arithmetic spec predicate (year, month, ISO week, weekday with nth-of-month, holiday calendars, list = disjunction, DaySelector = conjunction), with the leaf kernels (count_days_in_month, easter against an independent computus, valid_ymd clamps, wrapping ranges, Month next/prev) under their own contracts; 'time spans passing midnight continue on the following day' and the default sun-event times are contracts on TimeSpan::as_naive and time_selector_intervals_at(_next_day). Loop-free full-domain harnesses are complete proofs of their obligation; list/selector lengths and day offsets are bounded and labelled so. The rule-combination loop of schedule_at, dated ranges (`Mar 28-Apr 16`) and the parser link are not decided.",
-        level_note="Assumes the AST invariants read off grammar.pest/build_* (the parser is not verified, C05). Holiday calendars are abstracted by contract models (membership / least member after) justified by the C15 contracts; std sort replaced by an insertion-sort model in the time-selector harness. Not decided: rule combination in schedule_at (CBMC cannot carry it and generic trait methods cannot be stubbed), MonthdayRange::Date filter (no answer within budget), sun events with coordinates (C11).",
+        level_text="Partial. The clause 'a rule applies on a day iff the day satisfies its year, month, week-number and weekday/holiday selectors (steps, nth positions, offsets, wrapping ranges, leap days, Easter)' is decided per selector type: for every AST node satisfying the grammar's invariants and every date 1900..9999 the real `filter` equals an arithmetic spec predicate (year, month, ISO week, weekday with nth-of-month, holiday calendars, list = disjunction, DaySelector = conjunction), with the leaf kernels (count_days_in_month, easter against an independent computus, valid_ymd clamps, wrapping ranges, Month next/prev) under their own contracts; 'time spans passing midnight continue on the following day' and the default sun-event times are contracts on TimeSpan::as_naive and time_selector_intervals_at(_next_day). Loop-free full-domain harnesses are complete proofs of their obligation; list/selector lengths and day offsets are bounded and labelled so. Dated ranges (`Dec 24-Jan 6`, `2021 Mar 28-Apr 16`, `2020 Jan 1-2025 Dec 31`) are decided modularly: the pairing code against its contract on arrays of symbolic dates (bounded lengths), and the real `MonthdayRange::Date` arms of `filter` against 'every day from start to end, recurring yearly when no year is given, through new year when the end precedes the start' with the pairing entry points and the valid_ymd leaves replaced by their contracts (year-ful ranges for all nodes x all dates; year-less ranges for every day of representative years in the quick tier, all dates in the thorough tier). The rule-combination loop of schedule_at is decided in the thorough tier only (2-3 rules, contract models of the callees); Easter-based and offset dated ranges, `Feb 29` and the parser link are not decided.",
+        level_note="Assumes the AST invariants read off grammar.pest/build_* (the parser is not verified, C05). Holiday calendars are abstracted by contract models (membership / least member after) justified by the C15 contracts; std sort replaced by an insertion-sort model in the time-selector harness. Not decided: rule combination in schedule_at (CBMC cannot carry it and generic trait methods cannot be stubbed), Easter/offset dated ranges and `Feb 29` (deep tier only), sun events with coordinates (C11).",
         explanation="PARTIAL: selector-level and time-span-level clauses only.",
         undecided_clauses=[
             "'a later normal rule replaces earlier rules on the days it applies, additional rules and closed rules overlay, fallback rules apply only on days nothing else covered' (the loop of OpeningHours::schedule_at) - not decided: CBMC gives no answer for schedule_at on any expression, Kani cannot stub the generic trait methods that would cut the evaluator off",
-            "dated ranges (MonthdayRange::Date: `Mar 28-Apr 16`, `easter +1 day`, leap-day rule): only the pairing logic over abstract bound lists is under contract (C02 shape); filter == date-in-range spec is not decided (no answer in 700 s). The defects `2021 Mar 28-Apr 16` and `Apr 31` quoted in the statement live there and are recorded in DESIGN.md only",
+            "dated ranges with Easter bounds or day/weekday offsets (`easter -2 days-easter +1 day`, `Dec 24 -2 days-Jan 6`) and the leap-day selector `Feb 29`: harnesses written, not inside the time budget of the registered tiers (deep tier); `Apr 31`-like ranges of nonexistent days are a recorded known finding",
             "'For every expression the parser accepts': the parser->AST link is assumed (C05 not applicable)",
         ],
         trusted_base=_TB_COMMON + ["contract models of CompactCalendar::contains / first_after over a table of 2 symbolic holidays per calendar (justified by C15)",
-                                   "insertion-sort model of core::slice::sort::unstable::sort (time_selector harnesses)"],
+                                   "insertion-sort model of core::slice::sort::unstable::sort (time_selector harnesses)",
+                                   "dated ranges: contract models of valid_ymd_before/after (discharged by valid_ymd_clamps) and of is_open_from_bounds / next_change_from_bounds (pairing contract, discharged on the real code for bounded list lengths only: (1,1) quick, (0,2),(2,0) thorough; longer lists exceed the memory budget)"],
         assumptions=["AST invariants: years 1900..=9999, steps >= 1, week numbers 1..=53, variable-time offsets |x| <= 24:59, fixed start <= 24:00, end <= 48:00"],
     ),
     "C02": dict(
         level="other",
         technique="Kani contract harnesses: next_change_hint lower-bound contract per selector, is_constant soundness",
-        level_text="Partial. The mechanism that lets range iteration skip days is put under contract: for each selector type `next_change_hint(d) = Some(h)` implies h > d and filter(d') = filter(d) for every d' strictly between (one extra symbolic date = every skipped day), for all nodes and all dates (year step=1, year-less and year-ful month ranges, ISO weeks, holidays over abstract calendars, lists and DaySelector = earliest hint, dated-range pairing logic over abstract bounds); `is_constant()` implies that every day evaluates to one and the same full-day kind under a spec fold of the rule list written from C01's statement (bounded: <= 2 rules quick, 3 thorough). These are necessary conditions for 'no state change is skipped'; the stream-level statement itself (an invariant of TimeDomainIterator across days) is not decided.",
+        level_text="Partial. The mechanism that lets range iteration skip days is put under contract: for each selector type `next_change_hint(d) = Some(h)` implies h > d and filter(d') = filter(d) for every d' strictly between (one extra symbolic date = every skipped day), for all nodes and all dates (year step=1, year-less and year-ful month ranges, ISO weeks, holidays over abstract calendars, lists and DaySelector = earliest hint; dated ranges: the pairing code's next_change against its contract on bounded bound lists, and the real hint arms of `2024 Mar 1-2024 Apr 15` / `2021 Mar 28-Apr 16` / year-less ranges against that contract and the hint contract); `is_constant()` implies that every day evaluates to one and the same full-day kind under a spec fold of the rule list written from C01's statement (bounded: <= 2 rules quick, 3 thorough). These are necessary conditions for 'no state change is skipped'; the stream-level statement itself (an invariant of TimeDomainIterator across days) is not decided.",
         level_note="Assumes the AST invariants; holiday calendars abstracted by contract models (C15). Year ranges with step >= 2 are bounded (step <= 4, thorough tier). Not decided: the interval stream produced by TimeDomainIterator (non-empty, increasing, gap-free, exact cover, adjacent states differ): CBMC gives no answer on any expression and Verus rejects the code; the composition of per-rule hints in OpeningHours::next_change_hint (spill-over of the previous day, `Jul 22 04:00-48:00`).",
         explanation="PARTIAL: hint contracts and is_constant only; the stream-level clauses are undecided.",
         undecided_clauses=[
